@@ -272,6 +272,17 @@ fn judge_report(cx: &mut Ctx, report: &TaxReport, cnt: &mut Counters) {
             );
         }
     }
+    // one disposal per security and day: a second record for the same (security, date) is a split-up disposal
+    {
+        let mut seen = std::collections::HashSet::new();
+        for y in &report.tax_years {
+            for d in &y.disposals {
+                if !seen.insert((d.ticker.clone(), d.date)) {
+                    cx.push("C01", "duplicate_disposal", format!("{} on {} is reported as more than one disposal", d.ticker, d.date), json!({}));
+                }
+            }
+        }
+    }
     if multi_rule { cnt.inc("multi_leg_disposals"); }
     // ---- C02 (ii): shares matched against one day's acquisition never exceed it
     for ((si, a), q) in &used {
